@@ -93,6 +93,8 @@ ARG_POOL = (
     ArgDef("value", L(NN(N("Int")))),
     ArgDef("node", N("Inp")),
     ArgDef("x", N("Float")),
+    ArgDef("id", N("ID")),
+    ArgDef("ids", L(NN(N("ID")))),
     ArgDef("xs", L(N("Float"))),
 )
 
@@ -191,7 +193,8 @@ class SchemaSpec:
             out.append("union %s = %s" % (uname, " | ".join(members)))
         out.append("enum Color { %s }" % " ".join(n for n, _ in ENUM_VALUES))
         out.append("scalar Stamp")
-        out.append("input Inp { a: Int = 3, b: String, c: [Color!] }")
+        out.append("input Inp { a: Int = 3, b: String, c: [Color!], "
+                   "d: Int! = 10 }")
         if self.mutation or self.subscription:
             parts = ["query: %s" % self.query]
             if self.mutation:
@@ -527,6 +530,9 @@ class OpSpec:
 INT_VALUES = (0, 1, -1, 7, 42, -50)
 # (literal text, JSON payload, value the resolver receives): an Int literal /
 # integer payload is a legal Float input
+# an ID is handed to the resolver as a string however the client spelt it
+ID_VALUES = (('"abc"', "abc", "abc"), ("4", 4, "4"), ('"4"', "4", "4"),
+             ("-7", -7, "-7"), ('""', "", ""))
 FLOAT_VALUES = (("0.0", 0.0, 0.0), ("1.5", 1.5, 1.5), ("-2.25", -2.25, -2.25),
                 ("1e3", 1000.0, 1000.0), ("3", 3, 3.0), ("-7", -7, -7.0),
                 ("2.5E-1", 0.25, 0.25))
@@ -591,6 +597,8 @@ class OpGen:
             return ("true" if v else "false"), v, v
         if base == "Float":
             return FLOAT_VALUES[st.below(len(FLOAT_VALUES), "float")]
+        if base == "ID":
+            return ID_VALUES[st.below(len(ID_VALUES), "id")]
         if base == "Color":
             name, internal = ENUM_VALUES[st.below(len(ENUM_VALUES), "enum")]
             return name, name, internal
@@ -615,6 +623,15 @@ class OpGen:
                 lit.append("c: [%s]" % ", ".join(i[0] for i in items))
                 js["c"] = [i[1] for i in items]
                 py["c"] = [i[2] for i in items]
+            # d: Int! = 10 -- a literal may leave it out (the default fills
+            # it); a variable payload always spells it out
+            if st.chance(1, 2, "inp_d_omitted"):
+                js["d"] = py["d"] = 10
+            else:
+                d_lit, d_json, d_py = self._lit("Int", st)
+                lit.append("d: %s" % d_lit)
+                js["d"] = d_json
+                py["d"] = d_py
             return "{%s}" % ", ".join(lit), js, py
         raise AssertionError(base)
 
@@ -712,6 +729,17 @@ class OpGen:
                 else:
                     args.append((a.name, "null"))
                     argspec[a.name] = ("lit", None)
+                continue
+            if mode == 1 and a.type[0] == "L" and a.type[1][0] == "L" \
+                    and st.chance(1, 3, "bare_nested"):
+                # a bare value for a list-of-lists VARIABLE is wrapped once
+                # per level (literals of that shape are input coercion proper,
+                # C07, and stay out of the workload)
+                _l, js, py = self._lit(named(a.type), st)
+                v = self._new_var(a.type, ("null", js, [[py]]),
+                                  provided=True)
+                args.append((a.name, "$" + v))
+                argspec[a.name] = ("var", v)
                 continue
             val = self._value(a.type, st)
             if mode == 1:
@@ -876,8 +904,8 @@ class OpGen:
             choice = st.weighted((8, 2, 2, 1), "sel_kind")
             # 0 field, 1 inline fragment, 2 spread, 3 __typename
             if choice == 3 or (choice == 0 and not fields):
-                if self.op.kind == "mutation" and tname == self.op.root_type:
-                    continue
+                # (at a mutation root too: a meta field like any other,
+                # answered in its place in the chain)
                 alias = "tn" if st.chance(1, 4, "tn_alias") else None
                 f = FieldSel("__typename", alias=alias, dirs=self._dirs())
                 f.ptype = tname
@@ -1026,6 +1054,12 @@ class OpGen:
                 if f is not None:
                     sels.append(f)
             sels = sels or [self._gen_field(op.root_type, 1)]
+            if st.chance(1, 4, "mut_typename"):
+                # a meta field among the root fields: answered in its place
+                tn = FieldSel("__typename", alias="kind" if st.below(
+                    2, "mut_tn_alias") else None)
+                tn.ptype = op.root_type
+                sels.insert(st.below(len(sels) + 1, "mut_tn_at"), tn)
             wrap = st.weighted((4, 1, 1, 1), "mut_wrap")
             if wrap:
                 # root fields reached through a fragment: the whole list, or
@@ -1121,6 +1155,7 @@ def resolve_op(op, spec):
             if src[0] == "objvar":
                 obj = dict(src[2])
                 obj["a"] = v.py
+                obj["d"] = 10  # left out of the literal: the default
                 kw[a.name] = [obj] if src[3] else obj
                 continue
             if src[0] == "nnlistvar":
